@@ -1,7 +1,7 @@
 """C04 The enumerated valid design vectors are exactly the architectures, one each.\n\nCorrespondence: see harness/procpass.py (enum_checks) - get_all_discrete_x rows decode to themselves with the listed\nactiveness, their designs are pairwise distinct and equal the model's set of designs; get_n_valid_designs = rows = model\ncount; get_n_design_space = product of option counts; imputation ratio = quotient. Complete encoder only."""
 from .. import proc, procpass
 
-KINDS = {'enum-row-not-fixed-point', 'enum-activeness-differs', 'enum-duplicate-design', 'enum-missing-designs', 'enum-extra-designs', 'n-valid-mismatch', 'n-declared-mismatch', 'imputation-ratio-mismatch', 'enum-exc'}
+KINDS = {'enum-row-not-fixed-point', 'enum-activeness-differs', 'enum-duplicate-design', 'enum-missing-designs', 'enum-extra-designs', 'n-valid-mismatch', 'n-declared-mismatch', 'imputation-ratio-mismatch', 'enum-exc', 'lean-design-space'}
 RULE = ('seeded problems from streams (tame, tree, cons, dv, conn, conn-dv, shared) x the complete encoder; per problem every vector of the declared design space when <= 200 vectors (continuous variables at 3 sample points), else 200 samples; a case is one (problem, encoder); non-trivial = >= 2 architectures or a connection choice or DV nodes; distinct by content hash')
 BUDGET = {'quick': 110, 'thorough': 1500}
 JOBS = {'quick': 4, 'thorough': 16}
